@@ -2,6 +2,10 @@
 import os
 import random
 
+import numpy as np
+
+from vlib import enc
+
 from props import netcommon
 
 
@@ -40,6 +44,36 @@ def _nontrivial(rec):
     return rec["n"] >= 3 and sum(map(sum, rec["A"])) > 0
 
 
+WINDMILLS = [(4, 1), (4, 2), (3, 2), (2, 4), (12, 11), (16, 16)]
+
+
+def run_wind_case(c):
+    """Windmill graph Wd(c, m): hub 0 joined to m disjoint c-cliques (hub degree c m)."""
+    from pyunicorn.core import Network
+    cc, m = c["c"], c["m"]
+    n = cc * m + 1
+    A = np.zeros((n, n), dtype=int)
+    A[0, 1:] = A[1:, 0] = 1
+    for b in range(m):
+        lo = 1 + b * cc
+        A[lo:lo + cc, lo:lo + cc] = 1
+    np.fill_diagonal(A, 0)
+    rec = dict(c)
+    o = {"exc": ""}
+    try:
+        net = Network(adjacency=A, silence_level=3)
+        o["degree"] = enc.arr(net.degree())
+        o["local_clustering"] = enc.arr(net.local_clustering())
+        o["cliq3"] = enc.arr(net.local_cliquishness(3))
+        o["cliq4"] = enc.arr(net.local_cliquishness(4))
+        o["cliq5"] = enc.arr(net.local_cliquishness(5))
+        o["maxnbdeg"] = enc.arr(net.max_neighbors_degree())
+    except Exception as ex:
+        o["exc"] = type(ex).__name__
+    rec["obs"] = o
+    return rec
+
+
 def main(ctx):
     cfg = "Gen_C03_" + ctx.tier
     cases = ctx.gen_cached("Gen_C03", cfg)
@@ -54,10 +88,18 @@ def main(ctx):
     ctx.extra["scope"] = open(os.path.join(os.path.dirname(__file__), "..", "spec", cfg + ".cfg")).read().split()
     recs = ctx.run_cases("props.c03.run_case", cases)
     ctx.validate("Val_C03", "Val_C03", recs, nontrivial=_nontrivial)
+    # large degrees (beyond 8 bits) on windmill graphs with closed-form local measures
+    wcases = [{"case": "w%d_%d" % cm, "c": cm[0], "m": cm[1]} for cm in WINDMILLS]
+    wrecs = ctx.run_cases("props.c03.run_wind_case", wcases, jobs=2)
+    ctx.validate("Val_C03w", "Val_C03w", wrecs, stage="Val_C03w", nontrivial=lambda r: r["c"] * r["m"] > 127)
 
 
 def replay(ctx, rep):
     rec = rep["record"]
+    if rec["case"].startswith("w") and "c" in rec:
+        wrecs = ctx.run_cases("props.c03.run_wind_case", [{k: rec[k] for k in ("case", "c", "m")}], jobs=1)
+        ctx.validate("Val_C03w", "Val_C03w", wrecs, stage="Val_C03w")
+        return
     case = {k: v for k, v in rec.items() if k not in ("m", "x", "f1", "f2")}
     recs = ctx.run_cases("props.c03.run_case", [case], jobs=1)
     ctx.validate("Val_C03", "Val_C03", recs, nontrivial=_nontrivial)
